@@ -11,8 +11,9 @@ RULE = ("random patterns generated from the documented subset (literals, escaped
         "\\d \\s \\w) x all strings of length <=3 over a 7-character printable alphabet plus random longer ones and probe characters derived from the pattern (range endpoints, their neighbours, midpoints); "
         "PythonRegex(p).accepts(s) is compared with re.fullmatch(p, s); half of the patterns are generated as ASTs of the formal subset, for which the tree built by PythonRegex is also compared (whole language) with the verified reference translation; patterns rejected by re.compile must be "
         "rejected. Non-trivial: pattern with >=2 operators.")
-EXPLANATION = "CPython's re engine is the specification named by the property and cannot be stated in Lean. What is formal: a semantics of the documented subset (Pfl/Model/PyRegex.lean: Matches) with a reference translation into plain regular expressions proved to denote it (desugar_denote, matches_iff_Matches). Half of the cases are generated as ASTs of that subset: (1) the formal semantics is compared with re.fullmatch on every string (ties the Lean semantics to CPython), (2) the tree PythonRegex builds is compared with the reference translation by the verified language-equivalence oracle (whole language over string.printable, when the tree has at most 40 leaves), (3) accepts() is compared with re.fullmatch on the sampled strings. The other half are free-text patterns decided by re.fullmatch / re.compile only. The seven textual rewriting passes themselves are not modelled."
-THEOREMS = ["Pfl.PyRx.desugar_denote",
+EXPLANATION = "CPython's re engine is the specification named by the property and cannot be stated in Lean. What is formal: a semantics of the documented subset (Pfl/Model/PyRegex.lean: Matches) with a reference translation into plain regular expressions proved to denote it (desugar_denote, matches_iff_Matches). Half of the cases are generated as ASTs of that subset: (1) the formal semantics is compared with re.fullmatch on every string (ties the Lean semantics to CPython), (2) the tree PythonRegex builds is compared with the reference translation by the verified language-equivalence oracle (whole language over string.printable, when the tree has at most 40 leaves), (3) accepts() is compared with re.fullmatch on the sampled strings. The other half are free-text patterns decided by re.fullmatch / re.compile only. The seven textual rewriting passes are modelled step for step (Pfl/Model/PyRegexPasses.lean) and the text they hand to Regex is compared exactly on every ASCII pattern; no theorem relates the passes to the reference translation (only transform_plain: words of letters and digits pass through unchanged)."
+THEOREMS = ["Pfl.PyPass.transform_plain",
+            "Pfl.PyRx.desugar_denote",
             "Pfl.PyRx.matches_iff_Matches",
             "Pfl.PyRx.desugar_chars",
             "Pfl.PyRx.rep_iff",
@@ -227,6 +228,22 @@ def run_case(case, drv):
     if got[0] == "timeout":
         res.tag("timeout")
         return res
+    # step-faithful tie of the seven rewriting passes (Pfl/Model/PyRegexPasses.lean): the text handed to Regex
+    if all(ord(c) < 128 for c in p):
+        mp = drv.call("rx.pyPasses", patterns=[p])[0]
+        if mp.get("err") == "unsupported":
+            res.tag("passes_unsupported")
+        elif got[0] == "ok":
+            res.corr += 1
+            if mp.get("out") != getattr(got[1], "_python_regex", None):
+                res.corr_break("PythonRegex", "rewritten text differs from the model of the passes",
+                               detail={"pattern": p, "impl": getattr(got[1], "_python_regex", None), "model": mp})
+            res.tag("passes_tie")
+        elif "err" in mp:
+            res.corr += 1
+            if mp["err"] != got[1]:
+                res.corr_break("PythonRegex", "exception class differs from the model of the passes",
+                               detail={"pattern": p, "impl": got[1], "model": mp})
     if got[0] != "ok":
         res.violation("PythonRegex", "valid pattern refused with %s" % got[1], detail={"pattern": p}, scope=scope)
         return res
